@@ -238,6 +238,19 @@ func runC15(c *core.Ctx) {
 			}
 		}
 	}
+	// block strings whose lines are indented in every way, at every position a value can stand
+	for _, body := range []string{"if ok:\n    go()", "a\n  b\n    c", "  a\n  b", "\n  a\n    b\n", "a\n\tb\n\t\tc", "  first\nsecond\n    third", "x", "  x  ", "\n\n  x\n\n", "a\n\n  b", "  a\n\n    b\n  c"} {
+		bs := `"""` + body + `"""`
+		for _, q := range []string{
+			"{ g(any: " + bs + ") }", "{ g @dd(y: " + bs + ") }", "{ g(any: [" + bs + ", {k: " + bs + "}]) }", "query($s: String = " + bs + ") { g @dd(y: $s) }",
+			"query($a: Any = {k: [" + bs + "]}) { g(any: $a) }", "{ g(any: \"" + strings.ReplaceAll(strings.ReplaceAll(body, "\n", "\\n"), "\t", "\\t") + "\") }",
+		} {
+			for _, v := range []string{"{}", "{73=s78}"} {
+				cases = append(cases, cs{[]string{hs}, q, v})
+			}
+		}
+		cases = append(cases, cs{[]string{"type Query { g(s: String = " + bs + ", o: In = {t: " + bs + "}): Int } input In { t: String = " + bs + " }"}, "{ g a: g(o: {}) }", "{}"})
+	}
 	for k, v := range feats {
 		c.Count("feature_"+k, int64(v))
 	}
